@@ -8,7 +8,7 @@ import json
 from common import Check, ERR_CODES, cbool, clist, coq_eval, cz, czlist, outcome_class
 
 PRELUDE = """From Coq Require Import List ZArith Bool.
-From SC Require Import Base.Res Corr.Enc Desc.SpecPropModel Desc.SpecPropSpec Desc.ClassPropModel Desc.ClassPropSpec Corr.SpecPropCorr.
+From SC Require Import Base.Res Corr.Enc Desc.SpecPropModel Desc.SpecPropSpec Desc.ClassPropModel Desc.ClassPropSpec Desc.SpecPropDepsModel Desc.SpecPropDepsSpec Corr.SpecPropCorr.
 Import ListNotations.
 Open Scope Z_scope.
 """
@@ -99,8 +99,10 @@ def outcome(fn):
 _owner_cache = {}
 
 
-def make_owner(cfg, owner, sid, did, pid):
-    key = (cfg, owner, sid, did, pid)
+def make_owner(cfg, owner, sid, did, pid, own=False):
+    """own=True: getter / custom setter / custom deleter keep the backing value in
+    instance.__dict__ under the property's OWN name "p" (instead of "_p")"""
+    key = (cfg, owner, sid, did, pid, own)
     if key in _owner_cache:
         return _owner_cache[key]
     from spec_classes import spec_class, spec_property
@@ -109,15 +111,23 @@ def make_owner(cfg, owner, sid, did, pid):
     def fget(self):
         d = object.__getattribute__(self, "__dict__")
         d["calls"] = d.get("calls", 0) + 1
-        return mode_value(d["x"], d.get("_p", ABSENT), d["x"])
+        return mode_value(d["x"], d.get("p" if own else "_p", ABSENT), d["x"])
 
     def fset(self, v):
         if sid == 1 and isinstance(v, str):
             raise ValueError("setter: str")
-        self._p = v
+        if own:
+            object.__getattribute__(self, "__dict__")["p"] = v
+        else:
+            self._p = v
 
     def fdel(self):
-        if did == 1:
+        if own:
+            d = object.__getattribute__(self, "__dict__")
+            if did == 1 and "p" not in d:
+                raise AttributeError("deleter: nothing stored")
+            d.pop("p", None)
+        elif did == 1:
             del self._p
         else:
             object.__getattribute__(self, "__dict__").pop("_p", None)
@@ -153,10 +163,14 @@ def make_owner(cfg, owner, sid, did, pid):
     return cls
 
 
-def run_sp(case):
+def run_spo(case):
+    return run_sp(case, own=True)
+
+
+def run_sp(case, own=False):
     """case = (cfg, owner, sid, did, pid, x0, ops); returns the observations"""
     cfg, owner, sid, did, pid, x0, ops = case
-    cls = make_owner(cfg, owner, sid, did, pid)
+    cls = make_owner(cfg, owner, sid, did, pid, own)
     obj = cls()
     class_read_ok = cls.p is cls.__dict__["p"]   # Owner.p (instance is None) is the descriptor itself
     d = object.__getattribute__(obj, "__dict__")
@@ -203,6 +217,124 @@ def c_case_sp(case, seen):
     cfg, owner, sid, did, pid, x0, ops = case
     return (f"mkcase {c_cfg(cfg)} {C_OWNER[owner]} {sid} {did} {pid} {cz(x0)} "
             f"{clist(ops, c_op)} {clist(seen, czlist)}")
+
+
+# ------------------------------------------------------------------ trigger + dependant: implementation side
+# dflags = (ct, mt, cq, mq, star): ct / cq the six flags of the trigger `t` / the dependant `q`
+# (declared invalidated_by=["t"], or "*" when star), mt / mq: `t: int` / `q: int` annotated
+def make_owner2(dflags, tids, qids):
+    key = (dflags, tids, qids)
+    if key in _owner_cache:
+        return _owner_cache[key]
+    from spec_classes import spec_class, spec_property
+    ct, mt, cq, mq, star = dflags
+
+    def build(name, cfg, ids, base, **more):
+        ov, ca, fs, fd, fg, ae = cfg
+        sid, did, pid = ids
+
+        def fget(self):
+            d = object.__getattribute__(self, "__dict__")
+            d["calls"] = d.get("calls", 0) + 1
+            return mode_value(d["x"], d.get("_p", ABSENT), d["x"] + base)
+
+        # raw writes: an assignment through the generated __setattr__ would itself invalidate a
+        # dependant declared invalidated_by="*" from inside the setter
+        def fset(self, v):
+            if sid == 1 and isinstance(v, str):
+                raise ValueError("setter: str")
+            object.__getattribute__(self, "__dict__")["_p"] = v
+
+        def fdel(self):
+            d = object.__getattribute__(self, "__dict__")
+            if did == 1 and "_p" not in d:
+                raise AttributeError("deleter: nothing stored")
+            d.pop("_p", None)
+
+        prop = spec_property(fget if fg else None, overridable=bool(ov), cache=bool(ca),
+                             allow_attribute_error=bool(ae), **more)
+        if fs:
+            prop = prop.setter(fset)
+        if fd:
+            prop = prop.deleter(fdel)
+        return prop
+
+    ns = {"t": build("t", ct, tids, 0),
+          "q": build("q", cq, qids, 100, invalidated_by="*" if star else ["t"])}
+    ann = {}
+    for name, mg, ids in (("t", mt, tids), ("q", mq, qids)):
+        if not mg:
+            continue
+        ann[name] = int
+        pid = ids[2]
+        if pid == 1:
+            ns["_prepare_" + name] = lambda self, v: v + 1 if type(v) is int else v
+        elif pid == 2:
+            ns["_prepare_" + name] = lambda self, v: f"s{v}" if type(v) is int else v
+        elif pid == 3:
+            def _prep(self, v):
+                if v == 11:
+                    raise ValueError("preparer: 11")
+                return v
+            ns["_prepare_" + name] = _prep
+    if not ann:
+        ann["y"] = int
+        ns["y"] = 0
+    ns["__annotations__"] = ann
+    cls = spec_class(type("Owner2", (), ns))
+    _owner_cache[key] = cls
+    return cls
+
+
+def run_dp(case):
+    """case = (dflags, tids, qids, x0, ops); observation rows:
+    [outcome, value, __dict__['t'], __dict__['q'], x, _p, getter calls]"""
+    dflags, tids, qids, x0, ops = case
+    cls = make_owner2(dflags, tids, qids)
+    obj = cls()
+    d = object.__getattribute__(obj, "__dict__")
+    d["x"] = x0
+    d["calls"] = 0
+    seen = []
+    for op in ops:
+        n = op[0]
+        name = "t" if n[0] == "T" else "q"
+        if n in ("TRead", "QRead"):
+            out = outcome(lambda: [1, enc_val(getattr(obj, name))])
+        elif n in ("TAssign", "QAssign"):
+            def f():
+                setattr(obj, name, py_val(op[1]))
+                return [0, 0]
+            out = outcome(f)
+        elif n in ("TDelete", "QDelete"):
+            def f():
+                delattr(obj, name)
+                return [0, 0]
+            out = outcome(f)
+        else:
+            def f():
+                obj.x = op[1]
+                return [0, 0]
+            out = outcome(f)
+        extra = sorted(k for k in d if k not in ("t", "q", "x", "_p", "calls", "y"))
+        seen.append(out + [enc_opt(d.get("t", ABSENT)), enc_opt(d.get("q", ABSENT)), d.get("x", -77),
+                           enc_opt(d.get("_p", ABSENT)), d.get("calls", -77)] + ([-98] if extra else []))
+    return seen
+
+
+def c_dop(op):
+    if op[0] in ("TAssign", "QAssign"):
+        return f"{op[0]} {c_val(op[1])}"
+    if op[0] == "XPoke":
+        return f"XPoke {cz(op[1])}"
+    return op[0]
+
+
+def c_case_dp(case, seen):
+    (ct, mt, cq, mq, star), tids, qids, x0, ops = case
+    return (f"mkdcase (mkd {c_cfg(ct)} {cbool(mt)} {c_cfg(cq)} {cbool(mq)} {cbool(star)}) "
+            f"{tids[0]} {tids[1]} {tids[2]} {qids[0]} {qids[1]} {qids[2]} {cz(x0)} "
+            f"{clist(ops, c_dop)} {clist(seen, czlist)}")
 
 
 # ------------------------------------------------------------------ classproperty: implementation side
@@ -370,6 +502,94 @@ def gen_sp(rng, tier):
     return cases
 
 
+def gen_spo(rng, tier):
+    """own-name backing field (seeded change C12-F2): the custom setter keeps its value in
+    instance.__dict__["p"].  Only overridable=False, cache=False (the entry can then be neither
+    an override nor a cached value: every read is the getter on current state)."""
+    quick = tier == "quick"
+    cases = []
+    L = 3 if quick else 4
+    short = [("plain", 0, CORE_TRUTHY), ("plain", 0, CORE_NONE), ("unmanaged", 0, CORE_TRUTHY),
+             ("unmanaged", 0, CORE_NONE), ("managed", 0, CORE_ZERO), ("managed", 1, CORE_TRUTHY),
+             ("managed_inval", 1, CORE_TRUTHY), ("unmanaged_inval", 0, CORE_TRUTHY)]
+    longer = [("plain", 0, CORE_TRUTHY), ("managed", 1, CORE_TRUTHY)] + ([] if quick else [("unmanaged", 0, CORE_NONE)])
+    for kinds, ln in ((short, L), (longer, L + 1)):
+        for owner, pid, alphabet in kinds:
+            for fd in (0, 1):
+                cfg = (0, 0, 1, fd, 1, 1)
+                for seq in itertools.product(alphabet, repeat=ln):
+                    cases.append(((cfg, owner, 0, 0, pid, 0, list(seq)), "exh"))
+    n = 1500 if quick else 20000
+    maxlen = 4 if quick else 7
+    for i in range(n):
+        owner = OWNERS[i % 5]
+        cfg = (0, 0, 0 if rng.random() < 0.1 else 1, rng.randrange(2),
+               0 if rng.random() < 0.06 else 1, 0 if rng.random() < 0.3 else 1)
+        pid = rng.randrange(4) if owner.startswith("managed") else 0
+        ln = maxlen if rng.random() < 0.7 else rng.randint(1, maxlen)
+        ops = [full_op(rng) for _ in range(ln)]
+        cases.append(((cfg, owner, rng.randrange(2), rng.randrange(2), pid, rng.choice(NORMAL_X + FULL_X), ops), "rand"))
+    return cases
+
+
+def full_dop(rng):
+    r = rng.random()
+    if r < 0.14:
+        return ("TRead",)
+    if r < 0.36:
+        return ("TAssign", pick_value(rng))
+    if r < 0.46:
+        return ("TDelete",)
+    if r < 0.66:
+        return ("QRead",)
+    if r < 0.78:
+        return ("QAssign", pick_value(rng))
+    if r < 0.86:
+        return ("QDelete",)
+    return ("XPoke", rng.choice(FULL_X) if rng.random() < 0.5 else rng.choice(NORMAL_X))
+
+
+def gen_dp(rng, tier):
+    """trigger `t` + dependant `q` (invalidated_by=["t"] / "*") on one spec-class instance
+    (seeded change C12-F1): what a dependant holds must survive everything but a successful
+    assignment / deletion of the trigger."""
+    quick = tier == "quick"
+    cases = []
+    # (a) every trigger configuration (16 flags x managed or not) x dependant that can hold a
+    #     value (cache / overridable / both) x managed or not x ["t"] / "*": the dependant is
+    #     filled (by a read or an assignment), one operation on the trigger (or x), the dependant read
+    fills = [("QRead",), ("QAssign", ("I", 10))]
+    trigs = [("TAssign", ("I", 10)), ("TDelete",), ("TAssign", ("M",)), ("TRead",), ("XPoke", 4)]
+    seqs = [[f, t, ("QRead",)] for f in fills for t in trigs]
+    seqs += [[first, f, ("TDelete",), ("QRead",)] for first in [("TRead",), ("TAssign", ("I", 10))] for f in fills]
+    if not quick:
+        seqs += [[f, t, t2, ("QRead",)] for f in fills for t in trigs for t2 in trigs]
+    for fl in FLAGS16:
+        for mt in (0, 1):
+            for qf in ((0, 1), (1, 0), (1, 1)):
+                for mq in (0, 1):
+                    for star in (0, 1):
+                        dflags = (fl + (1, 1), mt, qf + (0, 0, 1, 1), mq, star)
+                        for seq in seqs:
+                            cases.append(((dflags, (0, 0, 0), (0, 0, 0), 0, list(seq)), "exh"))
+    # (b) sampled: all flags of both properties, setter / deleter / preparer pools, sentinels,
+    #     ill-typed values, raising getters
+    n = 3600 if quick else 40000
+    maxlen = 5 if quick else 8
+    for i in range(n):
+        def six():
+            return tuple(rng.randrange(2) for _ in range(4)) + (0 if rng.random() < 0.05 else 1, 0 if rng.random() < 0.3 else 1)
+        ct = FLAGS16[i % 16] + six()[4:]
+        mt, mq, star = rng.randrange(2), rng.randrange(2), rng.randrange(2)
+        dflags = (ct, mt, six(), mq, star)
+        tids = (rng.randrange(2), rng.randrange(2), rng.randrange(4) if mt else 0)
+        qids = (rng.randrange(2), rng.randrange(2), rng.randrange(4) if mq else 0)
+        ln = maxlen if rng.random() < 0.7 else rng.randint(1, maxlen)
+        ops = [full_dop(rng) for _ in range(ln)]
+        cases.append(((dflags, tids, qids, rng.choice(NORMAL_X + FULL_X), ops), "rand"))
+    return cases
+
+
 def full_cop(rng):
     r = rng.random()
     k = rng.randrange(3)
@@ -454,10 +674,19 @@ def anchored_coverage(sp_cases, cp_cases):
 
 
 # ------------------------------------------------------------------ check
+# kind -> (run on the implementation, encoder, Coq checker, Coq case type)
+KINDS = {"sp": (run_sp, c_case_sp, "check_sp", "case"),
+         "spo": (run_spo, c_case_sp, "check_sp_own", "case"),
+         "dp": (run_dp, c_case_dp, "check_dp", "dcase"),
+         "cp": (run_cp, c_case_cp, "check_cp", "ccase")}
+KIND_NAME = {"sp": "spec_property", "spo": "spec_property (backing value stored under the property's own name)",
+             "dp": "spec_property pair (trigger t + dependant q)", "cp": "classproperty"}
+SP_FLAGS = ["overridable", "cache", "setter", "deleter", "fget", "allow_attribute_error"]
+
+
 def evaluate(kind, cases, tag):
-    """kind 'sp' | 'cp'; cases: list of case tuples. returns ([(index, code, seen)], logs)"""
-    run, enc, fn, ty = ((run_sp, c_case_sp, "check_sp", "case") if kind == "sp"
-                        else (run_cp, c_case_cp, "check_cp", "ccase"))
+    """kind 'sp' | 'spo' | 'dp' | 'cp'; cases: list of case tuples. returns ([(index, code, seen)], logs)"""
+    run, enc, fn, ty = KINDS[kind]
     terms, seens = [], []
     for c in cases:
         seen = run(c)
@@ -484,20 +713,34 @@ def shrink(kind, case, code):
 
 
 def flags_of(kind, case):
-    names = (["overridable", "cache", "setter", "deleter", "fget", "allow_attribute_error"] if kind == "sp"
+    if kind == "dp":
+        ct, mt, cq, mq, star = case[0]
+        d = {"t_" + n: bool(b) for n, b in zip(SP_FLAGS, ct)}
+        d.update({"q_" + n: bool(b) for n, b in zip(SP_FLAGS, cq)})
+        d.update(t_managed=bool(mt), q_managed=bool(mq), q_invalidated_by="*" if star else ["t"])
+        return d
+    names = (SP_FLAGS if kind in ("sp", "spo")
              else ["overridable", "cache", "cache_per_subclass", "setter", "deleter", "fget", "allow_attribute_error"])
     return {n: bool(b) for n, b in zip(names, case[0])}
+
+
+LAYOUT = {"sp": "[outcome, value, __dict__['p'] (-1 absent), x, _p, getter calls]",
+          "spo": "[outcome, value, __dict__['p'] (-1 absent; here the backing field of getter / setter / deleter), x, _p, getter calls]",
+          "dp": "[outcome, value, __dict__['t'] (-1 absent), __dict__['q'], x, _p, getter calls]",
+          "cp": "[outcome, value, _cache[None], _cache[A], _cache[B], _cache[C], own x of A,B,C, own _p of A,B,C, getter calls]"}
 
 
 def describe(kind, case, code, seen):
     d = {"kind": kind, "flags": flags_of(kind, case), "case": case, "observed": seen, "code": code,
          "meaning": {1: "model and implementation differ; the two-slot specification still accepts the run",
                      2: "the implementation's run is not a run of the two-slot specification"}.get(code, "?"),
-         "observation_layout": ("[outcome, value, __dict__['p'] (-1 absent), x, _p, getter calls]" if kind == "sp" else
-                                "[outcome, value, _cache[None], _cache[A], _cache[B], _cache[C], own x of A,B,C, own _p of A,B,C, getter calls]"),
+         "observation_layout": LAYOUT[kind],
          "replay": "bin/check C12 --replay <this file>"}
-    if kind == "sp":
+    if kind in ("sp", "spo"):
         d.update(owner=case[1], setter_id=case[2], deleter_id=case[3], preparer_id=case[4], x0=case[5], ops=case[6])
+    elif kind == "dp":
+        d.update(owner="spec class with properties t and q", t_setter_deleter_preparer_ids=case[1],
+                 q_setter_deleter_preparer_ids=case[2], x0=case[3], ops=case[4])
     else:
         d.update(shape=case[1], setter_id=case[2], deleter_id=case[3], x0=case[4], ops=case[5])
     return d
@@ -509,7 +752,9 @@ def tup(x):
 
 def case_from_json(kind, c):
     c = list(c)
-    c[0] = tuple(c[0])
+    c[0] = tup(list(c[0]))
+    if kind == "dp":
+        c[1], c[2] = tuple(c[1]), tuple(c[2])
     c[-1] = [tup(o) for o in c[-1]]
     return tuple(c)
 
@@ -518,20 +763,21 @@ def main(tier, replay=None):
     chk = Check("C12", tier)
     if replay:
         r = json.load(open(replay))
-        if r.get("kind") not in ("sp", "cp"):
+        if r.get("kind") not in KINDS:
             print("replay: not a concrete case:", r.get("what", "")[:300])
             return 1
         case = case_from_json(r["kind"], r["case"])
         bad, logs = evaluate(r["kind"], [case], "r")
         print("replay:", "still failing code=%s" % bad[0][1] if bad else "passes now", logs)
-        print("observed now:", (run_sp if r["kind"] == "sp" else run_cp)(case))
+        print("observed now:", KINDS[r["kind"]][0](case))
         return 1 if bad else 0
     chk.proofs()
     stats = {}
-    all_cases = {"sp": gen_sp(chk.rng, tier), "cp": gen_cp(chk.rng, tier)}
+    all_cases = {"sp": gen_sp(chk.rng, tier), "cp": gen_cp(chk.rng, tier),
+                 "spo": gen_spo(chk.rng, tier), "dp": gen_dp(chk.rng, tier)}
     reported = set()
     total_bad = 0
-    for kind in ("sp", "cp"):
+    for kind in ("sp", "cp", "spo", "dp"):
         cases = [c for c, _ in all_cases[kind]]
         bad, logs = evaluate(kind, cases, "c")
         total_bad += len(bad)
@@ -540,15 +786,17 @@ def main(tier, replay=None):
             fl = flags_of(kind, small)
             last = small[-1][-1][0]
             sig = {"kind": kind, "op": last, "code": code, **{k: v for k, v in fl.items()},
-                   "owner": small[1] if kind == "sp" else "plain"}
+                   "owner": small[1] if kind in ("sp", "spo") else "spec" if kind == "dp" else "plain"}
             skey = json.dumps(sig, sort_keys=True)
             if skey in reported:
                 continue
             reported.add(skey)
-            seen2 = (run_sp if kind == "sp" else run_cp)(small)
-            what = (f"{'spec_property' if kind == 'sp' else 'classproperty'} "
+            seen2 = KINDS[kind][0](small)
+            where = ("owner=" + small[1] if kind in ("sp", "spo") else "shape=" + str(small[1]) if kind == "cp"
+                     else "owner=spec class")
+            what = (f"{KIND_NAME[kind]} "
                     f"{'violates the two-slot protocol' if code == 2 else 'differs from the model'}: "
-                    f"flags={fl} {'owner=' + small[1] if kind == 'sp' else 'shape=' + str(small[1])} ops={small[-1]}")
+                    f"flags={fl} {where} ops={small[-1]}")
             chk.violation(what, describe(kind, small, code, seen2), sig=sig, no_input=(code != 2))
         for lg in logs:
             chk.violation("correspondence evaluation failed: " + lg[-500:], {"kind": "coq-eval", "log": lg}, no_input=True)
@@ -559,7 +807,7 @@ def main(tier, replay=None):
             len_hist[len(c[-1])] = len_hist.get(len(c[-1]), 0) + 1
             for o in c[-1]:
                 ops_hist[o[0]] = ops_hist.get(o[0], 0) + 1
-            if kind == "sp":
+            if kind in ("sp", "spo"):
                 owner_hist[c[1]] = owner_hist.get(c[1], 0) + 1
         stats[kind] = {"cases": len(cases), "operations": sum(len(c[-1]) for c in cases), "disagreements": len(bad),
                        "by_generator": gen_hist, "op_histogram": ops_hist, "length_histogram": len_hist,
@@ -567,7 +815,7 @@ def main(tier, replay=None):
                        "flag_combinations": len({c[0] for c in cases})}
     # outcome histogram from a sample re-run (cheap)
     outs = {}
-    for kind, run in (("sp", run_sp), ("cp", run_cp)):
+    for kind, run in (("sp", run_sp), ("cp", run_cp), ("spo", run_spo), ("dp", run_dp)):
         cs = [c for c, _ in all_cases[kind]]
         for c in cs[:: max(1, len(cs) // 4000)]:
             for o in run(c):
@@ -581,6 +829,7 @@ def main(tier, replay=None):
     sp, cp = [c for c, _ in all_cases["sp"]], [c for c, _ in all_cases["cp"]]
     extra = {
         "correspondence": {"spec_property": stats["sp"], "classproperty": stats["cp"],
+                           "spec_property_own_name_backing": stats["spo"], "spec_property_trigger_and_dependant": stats["dp"],
                            "outcome_histogram_sampled": outs, "disagreements": total_bad,
                            "anchored_line_coverage_sampled": line_cov},
         "evaluations": n_cases, "distinct_nontrivial": distinct,
@@ -591,9 +840,15 @@ def main(tier, replay=None):
                 "(managed+preparer; plain/unmanaged one step shorter) plus sampled sequences of length <= 4 / <= 7 "
                 "over the full pools (5 owner kinds incl. invalidated_by, fget absent, allow_attribute_error, None / 0 / '' / [] as overrides, getter results and private-field values, sentinels, ill-typed values, "
                 "raising getter/setter/deleter/preparer); classproperty: 32 flag combinations x 2 hierarchy shapes x every sequence of "
-                "length 2 (quick; thorough adds every third sequence of length 3) over 14 operations on three classes (assignments of None, 0 and 12; a state change that makes the getter return None) plus sampled sequences of length <= 4 / <= 7; distinct = distinct case tuples; "
+                "length 2 (quick; thorough adds every third sequence of length 3) over 14 operations on three classes (assignments of None, 0 and 12; a state change that makes the getter return None) plus sampled sequences of length <= 4 / <= 7; "
+                "own-name backing (overridable=False, cache=False, custom setter / deleter / getter keep the value in instance.__dict__ under the property's own name): "
+                "8 owner/alphabet kinds x deleter present or not x every sequence of length 3 / 4 (two / three kinds one step longer) plus sampled sequences over the full pools; "
+                "trigger + dependant (two spec_properties t, q on one spec-class instance, q invalidated_by=['t'] or '*'): 16 trigger flag combinations x managed or not x "
+                "dependant cache / overridable / both x managed or not x ['t'] / '*' x 14 sequences (fill q by read or assignment; assign / delete / read t, sentinel, x; read q) "
+                "plus sampled sequences of length <= 5 / <= 8 over all flags and pools of both properties; distinct = distinct case tuples; "
                 "every case has >= 1 operation; after EVERY operation outcome, stored entry, underlying state and getter call count are compared",
-        "samples": [dict(kind="sp", case=sp[0]), dict(kind="sp", case=sp[-1]), dict(kind="cp", case=cp[0]), dict(kind="cp", case=cp[-1])],
+        "samples": [dict(kind="sp", case=sp[0]), dict(kind="sp", case=sp[-1]), dict(kind="cp", case=cp[0]), dict(kind="cp", case=cp[-1]),
+                    dict(kind="spo", case=all_cases["spo"][0][0]), dict(kind="dp", case=all_cases["dp"][-1][0])],
         "exhaustive": False,
     }
     return chk.finish(
@@ -604,5 +859,6 @@ def main(tier, replay=None):
         assumptions=["a custom setter / deleter replaces the default assignment / deletion (as for builtin property); the default clauses of the property apply without them",
                      "deletion drops override and cache together ('cached since the last deletion')",
                      "on a spec class assigning a sentinel is 'no assignment'; an ill-typed value is rejected with TypeError before the descriptor is reached",
-                     "owner is not frozen; no other attribute lists the property in its invalidated_by; the instance __dict__ is only written through the descriptor"],
+                     "owner is not frozen; dependants (properties listing the property in invalidated_by, or '*') are covered for one trigger and one dependant; "
+                     "a custom setter that stores under the property's own name is covered for overridable=False, cache=False (with an override or a cache possible the entry's meaning is ambiguous)"],
         extra=extra)
